@@ -411,3 +411,59 @@ Proof.
   rewrite Hs in Hd. unfold contiguous_list in Hc.
   destruct ss as [|s0 t0]; [reflexivity|]. rewrite Hd. apply retime_contiguous. exact Hc.
 Qed.
+
+(* ------------------------------------------------------------------ reading the pieces back *)
+Fixpoint total_dur (ss : list fsample) : N :=
+  match ss with [] => 0 | s :: t => fs_dur s + total_dur t end.
+
+Lemma contiguous_app a : forall base b,
+  contiguous base (a ++ b) = true -> contiguous base a = true /\ contiguous (base + total_dur a) b = true.
+Proof.
+  induction a as [|s t IH]; intros base b H; cbn [app contiguous total_dur] in *.
+  - split; [reflexivity|]. rewrite N.add_0_r. exact H.
+  - apply andb_true_iff in H. destruct H as [H1 H2]. apply IH in H2. destruct H2 as [H2 H3].
+    rewrite H1, H2. split; [reflexivity|]. rewrite N.add_assoc. exact H3.
+Qed.
+
+Lemma retime_pieces : forall segs base,
+  contiguous base (concat segs) = true -> map retime_seg segs = segs.
+Proof.
+  induction segs as [|seg r IH]; intros base H; cbn [map concat] in *; [reflexivity|].
+  apply contiguous_app in H. destruct H as [H1 H2]. f_equal; [|eapply IH; exact H2].
+  destruct seg as [|s t]; [reflexivity|]. cbn [retime_seg].
+  pose proof H1 as H1'. cbn [contiguous] in H1'. apply andb_true_iff in H1'. destruct H1' as [E _].
+  apply N.eqb_eq in E. rewrite E. apply retime_contiguous. exact H1.
+Qed.
+
+Lemma contiguous_list_base ss : contiguous_list ss = true -> exists base, contiguous base ss = true.
+Proof. destruct ss as [|s t]; intros H; [exists 0; reflexivity | exists (fs_dts s); exact H]. Qed.
+
+Lemma resegment_read_back d ss segs :
+  contiguous_list ss = true -> resegment d ss = Ok segs -> concat (map retime_seg segs) = ss.
+Proof.
+  intros Hc H. destruct (resegment_conserves d ss segs H) as [Hcat _].
+  destruct (contiguous_list_base ss Hc) as [base Hb]. rewrite <- Hcat in Hb.
+  rewrite (retime_pieces segs base Hb). exact Hcat.
+Qed.
+
+Lemma fragmentify_read_back dur frags :
+  contiguous_list (concat frags) = true ->
+  exists outs, fragmentify dur frags = Ok outs /\ concat (map retime_seg outs) = concat frags.
+Proof.
+  intros Hc. destruct (fragmentify_conserves dur frags) as (outs & E & Hcat & _).
+  exists outs. split; [exact E|].
+  destruct (contiguous_list_base _ Hc) as [base Hb]. rewrite <- Hcat in Hb.
+  rewrite (retime_pieces outs base Hb). exact Hcat.
+Qed.
+
+(* a decode-time gap inside an output piece is closed by the rewrite *)
+Lemma read_back_gap_refuted :
+  exists d ss segs outs,
+    resegment d ss = Ok segs /\ concat (map retime_seg segs) <> ss /\
+    fragmentify d [firstn 2 ss; skipn 2 ss] = Ok outs /\ concat (map retime_seg outs) <> ss.
+Proof.
+  pose (ss := [mkFS 0 40 0%Z 33554432 []; mkFS 40 40 0%Z 65536 []; mkFS 500 40 0%Z 65536 []]).
+  exists 1000, ss, [ss], [ss].
+  split; [vm_compute; reflexivity|]. split; [vm_compute; discriminate|].
+  split; [vm_compute; reflexivity|]. vm_compute; discriminate.
+Qed.
